@@ -18,7 +18,9 @@ Definition insP (u : nref) : list (option var) :=
   else [].
 Definition subsP (u : nref) : list nat := if inR u then map snd (subs_of p u) else [].
 Definition gargsP (g : nat) : list var := match gargs (getg p g) with Some l => l | None => [] end.
-Definition gresP (g : nat) : list var := map snd (gres (getg p g)).
+(* the results of a graph are the outputs of its result identity (whose inputs are the requested result Vars) *)
+Definition gresP (g : nat) : list var := map (V (NIntro g)) (seq 0 (List.length (gres (getg p g)))).
+Definition greqP (g : nat) : list var := map snd (gres (getg p g)).      (* the requested result Vars themselves *)
 Definition noutsP (u : nref) : nat := List.length (node_outs p u).
 Definition is_argP (u : nref) : bool := is_arg p u.
 
@@ -55,7 +57,7 @@ with plan_of_graph (gid : nat) (g : mgraph) : plan :=
                    match l with [] => [] | n :: t => plan_of_node n :: go t end) b) end.
 
 Definition check_plan (g : mgraph) : bool :=
-  acyclic_b && wf_b is_argP insP subsP gargsP gresP noutsP (plan_of_graph main g) [] [].
+  acyclic_b && inR (NIntro main) && wf_b is_argP insP subsP gargsP gresP noutsP (plan_of_graph main g) [] [].
 
 (* operator semantics: arbitrary for user nodes (by node index), identity for the per-graph result identities *)
 Section OpSem.
